@@ -7,6 +7,7 @@ import (
 	"crypto/sha1"
 	"fmt"
 	"io"
+	"sort"
 	"strings"
 	"sync"
 
@@ -15,7 +16,9 @@ import (
 	"seehuhn.de/go/geom/matrix"
 	"seehuhn.de/go/sfnt"
 	"seehuhn.de/go/sfnt/cff"
+	"seehuhn.de/go/sfnt/cmap"
 	"seehuhn.de/go/sfnt/glyph"
+	"seehuhn.de/go/sfnt/opentype/classdef"
 	"seehuhn.de/go/sfnt/opentype/coverage"
 	"seehuhn.de/go/sfnt/opentype/gtab"
 	"seehuhn.de/go/sfnt/opentype/gtab/builder"
@@ -50,11 +53,39 @@ var Ops = []Op{
 		return fmt.Sprint(err, digest(buf.Bytes()))
 	}},
 	{"Subset", "", func(f *sfnt.Font) string {
+		if !subsettable(f) {
+			return "not supported by the subsetter (declared)"
+		}
 		s := f.Subset([]glyph.ID{0, 3, 1})
 		buf := &bytes.Buffer{}
 		_, err := s.Write(buf)
-		// the order of glyphs appended by the closure is not specified: digest the widths as a set
-		return fmt.Sprint(s.NumGlyphs(), err)
+		// the order of glyphs appended by the closure is not specified: the widths as a set, and what every
+		// cmap subtable of the subset maps the probe characters to (identified by the glyph's width)
+		var ws []float64
+		for i := 0; i < s.NumGlyphs(); i++ {
+			ws = append(ws, s.GlyphWidth(glyph.ID(i)))
+		}
+		sort.Float64s(ws)
+		out := fmt.Sprint(s.NumGlyphs(), err, ws)
+		var keys []cmap.Key
+		for k := range s.CMapTable {
+			keys = append(keys, k)
+		}
+		sort.Slice(keys, func(i, j int) bool {
+			a, b := keys[i], keys[j]
+			return a.PlatformID < b.PlatformID || a.PlatformID == b.PlatformID && (a.EncodingID < b.EncodingID || a.EncodingID == b.EncodingID && a.Language < b.Language)
+		})
+		for _, k := range keys {
+			sub, err := s.CMapTable.Get(k)
+			if err != nil {
+				out += fmt.Sprint(k, err)
+				continue
+			}
+			for _, r := range []rune{'A', 'B', 'f', 'i', 0x80, 0xC4, 0x1F600} {
+				out += fmt.Sprint(k, r, s.GlyphWidth(sub.Lookup(r)), ";")
+			}
+		}
+		return out
 	}},
 	{"Clone", "", func(f *sfnt.Font) string {
 		c := f.Clone()
@@ -89,7 +120,11 @@ var Ops = []Op{
 			return []glyph.Info{{GID: 1, Text: []rune("a")}, {GID: 2, Text: []rune("b")}, {GID: 3, Text: []rune("c")}, {GID: 4, Text: []rune("d")}}
 		}
 		if f.Gsub != nil {
-			out += fmt.Sprint(gtab.NewContext(f.Gsub.LookupList, f.Gdef, []gtab.LookupIndex{0}).Apply(seq()))
+			var all []gtab.LookupIndex
+			for i := range f.Gsub.LookupList {
+				all = append(all, gtab.LookupIndex(i))
+			}
+			out += fmt.Sprint(gtab.NewContext(f.Gsub.LookupList, f.Gdef, all).Apply(seq()))
 		}
 		if f.Gpos != nil {
 			out += fmt.Sprint(gtab.NewContext(f.Gpos.LookupList, f.Gdef, []gtab.LookupIndex{0}).Apply(seq()))
@@ -131,9 +166,25 @@ var WriterOps = []WriterOp{
 	}},
 	{"AsCFF.Write", "cff", func(f *sfnt.Font, w io.Writer) string { return fmt.Sprint(f.AsCFF().Write(w)) }},
 	{"Subset.Write", "", func(f *sfnt.Font, w io.Writer) string {
+		if !subsettable(f) {
+			n, err := w.Write([]byte("not supported by the subsetter (declared)"))
+			return fmt.Sprint(n, err)
+		}
 		n, err := f.Subset([]glyph.ID{0, 2, 1}).Write(w)
 		return fmt.Sprint(n, err)
 	}},
+}
+
+// subsettable: the subsetter declares GSUB lookup types other than 1 and 4 unsupported (it panics).
+func subsettable(f *sfnt.Font) bool {
+	if f.Gsub != nil {
+		for _, l := range f.Gsub.LookupList {
+			if l.Meta.LookupType != 1 && l.Meta.LookupType != 4 {
+				return false
+			}
+		}
+	}
+	return true
 }
 
 // FontNames names the shared fonts.
@@ -197,11 +248,29 @@ func Font(k int) *sfnt.Font {
 		l0 := f.Gsub.LookupList[0]
 		l1 := gen.MakeLookup(1, gen.Flags[0], []gtab.Subtable{&gtab.Gsub1_1{Cov: coverage.Set{1: true}, Delta: 1}})
 		l2 := gen.MakeLookup(1, gen.Flags[0], []gtab.Subtable{&gtab.Gsub1_1{Cov: coverage.Set{2: true}, Delta: 2}})
+		// chained context rules in all three formats with a backtrack sequence of two different glyphs
+		l3 := gen.MakeLookup(6, gen.Flags[0], []gtab.Subtable{
+			&gtab.ChainedSeqContext1{Cov: coverage.Table{3: 0}, Rules: [][]*gtab.ChainedSeqRule{{{Backtrack: []glyph.ID{2, 1}, Input: []glyph.ID{4}, Lookahead: []glyph.ID{5}, Actions: []gtab.SeqLookup{{SequenceIndex: 0, LookupListIndex: 1}}}}}},
+			&gtab.ChainedSeqContext2{Cov: coverage.Table{4: 0}, Backtrack: classdef.Table{1: 1, 2: 2}, Input: classdef.Table{4: 1}, Lookahead: classdef.Table{},
+				Rules: [][]*gtab.ChainedClassSeqRule{nil, {{Backtrack: []uint16{2, 1}, Actions: []gtab.SeqLookup{{SequenceIndex: 0, LookupListIndex: 2}}}}}},
+			&gtab.ChainedSeqContext3{Backtrack: []coverage.Set{{2: true}, {1: true, 3: true}}, Input: []coverage.Set{{5: true}}, Actions: []gtab.SeqLookup{{SequenceIndex: 0, LookupListIndex: 1}}},
+		})
 		f.Gsub = &gtab.Info{
 			ScriptList:  gtab.ScriptListInfo{language.MustParse("und-Zzzz-x-dflt"): {Required: 0, Optional: []gtab.FeatureIndex{1, 2}}},
-			FeatureList: []*gtab.Feature{{Tag: "rqrd", Lookups: append(make([]gtab.LookupIndex, 0, 8), 2, 2, 1)}, {Tag: "liga", Lookups: []gtab.LookupIndex{0}}, {Tag: "smcp", Lookups: []gtab.LookupIndex{0, 2}}},
-			LookupList:  gtab.LookupList{l0, l1, l2},
+			FeatureList: []*gtab.Feature{{Tag: "rqrd", Lookups: append(make([]gtab.LookupIndex, 0, 8), 2, 2, 1)}, {Tag: "liga", Lookups: []gtab.LookupIndex{0, 3}}, {Tag: "smcp", Lookups: []gtab.LookupIndex{0, 2}}},
+			LookupList:  gtab.LookupList{l0, l1, l2, l3},
 		}
+		if k == 0 {
+			// the subsetter declares contextual lookups unsupported: the glyf font keeps a GSUB it can subset
+			f.Gsub.LookupList = gtab.LookupList{l0, l1, l2}
+			f.Gsub.FeatureList[1].Lookups = []gtab.LookupIndex{0}
+		}
+	}
+	if k == 0 {
+		// a Macintosh and a Windows record that share one subtable (the same bytes), with codes above 0x7F:
+		// the Macintosh record is keyed by Mac Roman bytes, the Windows record by code points
+		shared := cmap.Format4{'A': 1, 'B': 2, 'f': 3, 'i': 4, 0x80: 5, 0xC4: 2}.Encode(0)
+		f.CMapTable = cmap.Table{{PlatformID: 3, EncodingID: 1}: shared, {PlatformID: 1, EncodingID: 0}: shared}
 	}
 	return f
 }
